@@ -1709,7 +1709,8 @@ class Calendar(Component):
         """
         tzids = self.get_used_tzids()
         for timezone in self.timezones:
-            tzids.remove(timezone.tz_name)
+            if 'TZID' in timezone:
+                tzids.discard(timezone.tz_name)
         return tzids
 
     @property
